@@ -12,7 +12,7 @@ from __future__ import annotations
 
 from core import Harness
 
-from props.eval_common import CheckCap, MutationOnlyRep, Recording, ScriptRep, SpyBudget, uid
+from props.eval_common import CheckCap, MutationOnlyRep, Recording, ScriptRep, SpyBudget, StructuralRep, uid
 
 from geneticengine.algorithms.gp.gp import GeneticProgramming, default_generic_programming_step
 from geneticengine.algorithms.gp.operators.combinators import ParallelStep, SequenceStep
@@ -77,6 +77,8 @@ GP_STEPS = {
     "tournament;crossover(1);mutation(1)": lambda: SequenceStep(TournamentSelection(2), GenericCrossoverStep(1), GenericMutationStep(1)),
     "novelty": lambda: NoveltyStep(),
     "mutation(1);tournament": lambda: SequenceStep(GenericMutationStep(1), TournamentSelection(2)),
+    "tournament;mutation(1)": lambda: SequenceStep(TournamentSelection(2), GenericMutationStep(1)),
+    "elitism|tournament;mutation(1)": lambda: ParallelStep([ElitismStep(), SequenceStep(TournamentSelection(2), GenericMutationStep(1))], weights=[1, 3]),
     "elitism": lambda: ElitismStep(),
     "tournament": lambda: TournamentSelection(2),
 }
@@ -84,7 +86,7 @@ PROGRESSING = ["default", "elitism|novelty", "tournament;crossover(1);mutation(1
 NON_PROGRESSING = ["elitism", "tournament"]
 
 
-def observe(algo, size, step_name, kind, keys, mk_budget, wire_budget, cap, seed, scale=1):
+def observe(algo, size, step_name, kind, keys, mk_budget, wire_budget, cap, seed, scale=1, rep_cls=ScriptRep):
     """Run one real search. algo in rs|opo|hc|gp."""
     rec = Recording()
     problem, tracker_cls = make_problem(kind, scale)
@@ -101,7 +103,7 @@ def observe(algo, size, step_name, kind, keys, mk_budget, wire_budget, cap, seed
         alg = HC(problem, spy, MutationOnlyRep(keys), random, tracker, number_of_mutations=size)
         name, wire_algo, bound = "HC", ["hc", size], size
     else:
-        alg = GeneticProgramming(problem, spy, ScriptRep(keys), random, tracker, population_size=size, step=GP_STEPS[step_name]())
+        alg = GeneticProgramming(problem, spy, rep_cls(keys), random, tracker, population_size=size, step=GP_STEPS[step_name]())
         name, wire_algo, bound = "GeneticProgramming", ["gp", size], size
     r = Run()
     r.site = f"{name}.search"
@@ -177,7 +179,7 @@ def check_evaluation_budgets(h: Harness):
     lnames = list(landscapes)
     k = 0
 
-    def one(algo, size, step_name, n):
+    def one(algo, size, step_name, n, rep_cls=ScriptRep):
         nonlocal k
         kind = kinds[k % 3]
         lname = lnames[(k // 3) % 3]
@@ -186,7 +188,12 @@ def check_evaluation_budgets(h: Harness):
         seed = rng.randrange(10**6)
         cap = 3 * n + 24
         wire_budget = ["evals", n]
-        r = observe(algo, size, step_name, kind, keys, lambda: EvaluationBudget(n), wire_budget, cap, seed)
+        if rep_cls is not ScriptRep:
+            keys = [3]
+            lname = "a search space of exactly one program"
+        r = observe(algo, size, step_name, kind, keys, lambda: EvaluationBudget(n), wire_budget, cap, seed, rep_cls=rep_cls)
+        if rep_cls is not ScriptRep:
+            r.desc += " [search space of exactly one program: genotypes compare equal]"
         replay = {"algo": algo, "size": size, "step": step_name, "n": n, "kind": kind, "landscape": lname, "keys": keys, "seed": seed}
         h.count(f"evals:{r.name}" + (f":{step_name}" if step_name else ""))
         if not judge_common(h, r, wire_budget, replay):
@@ -220,6 +227,12 @@ def check_evaluation_budgets(h: Harness):
             steps = PROGRESSING if h.thorough else [PROGRESSING[(n + size) % len(PROGRESSING)], "mutation(1);tournament"][: (2 if n % 4 == 0 else 1)]
             for st in steps:
                 one("gp", size, st, n)
+    # a search space of exactly one program (a recursive grammar searched at its minimum depth, IntRange(5, 5)): every mutation
+    # and crossover returns a genotype equal to its input -- still a new individual, evaluated and counted
+    for st in ["tournament;mutation(1)", "mutation(1);tournament", "elitism|tournament;mutation(1)", "tournament;crossover(1);mutation(1)"]:
+        for (size, n) in [(3, 10), (6, 40), (1, 4), (4, 9)]:
+            one("gp", size, st, n, rep_cls=StructuralRep)
+            h.count("evals:one-program-search-space")
     # steps that create no new individual: the counter cannot move
     for st in NON_PROGRESSING:
         for (size, n) in [(2, 3), (3, 10), (5, 6), (1, 2), (4, 4), (6, 2)] + ([(s, s + d) for s in range(1, 9) for d in (1, 5)] if h.thorough else []):
@@ -306,25 +319,34 @@ def check_target_and_anyof(h: Harness):
         else:
             mk = lambda: AnyOf(TargetFitness(tv), TargetFitness(tv2))  # noqa: E731
             wire = ["anyof", ["target", v], ["target", v2]]
-        seed = rng.randrange(10**6)
-        r = observe(algo, size, step_name, kind, keys, mk, wire, 400, seed, scale=UNIT)
-        replay = {"algo": algo, "size": size, "step": step_name, "kind": kind, "keys": keys, "budget": wire, "seed": seed}
-        h.count(f"budget:{form}:{'reachable' if reachable else 'unreachable'}")
-        if not judge_common(h, r, wire, replay):
-            continue
-        if not r.stopped:
-            if form in ("target", "any(t,t2)"):
-                h.notes.append(f"{r.desc}: target not hit within 400 checks (keys cycle); no verdict")
-                h.count("budget:cap")
-            else:
-                h.fail(r.site, "never-terminates", f"{r.desc}: still running after {len(r.counts)} checks, counter {r.counts[-3:]}", replay)
-            continue
-        if form == "target":
-            h.holds("TargetFitness.is_done", "target-stop-wrong", ["prop_target", v, r.comps],
-                    f"{r.desc}: best fitness (units of 1e-5) at the checks = {r.comps}; target {v} +- 10", replay)
-        elif form in ("any(e,t)", "any(t,e)", "any(any(e,t),e2)"):
-            h.holds("AnyOf.is_done", "anyof-stop-wrong", ["prop_anyof", min(n, n2) if form == "any(any(e,t),e2)" else n, v, r.counts, r.comps],
-                    f"{r.desc}: counter at the checks = {r.counts}, best fitness at the checks = {r.comps}", replay)
+        # every third configuration: ONE budget object, used by two searches one after the other (a seed sweep, a retry):
+        # what a budget decides depends on the search it is asked about, not on searches it was asked about before
+        reuse = t % 3 == 0
+        if reuse:
+            obj = mk()
+            mk = lambda: obj  # noqa: E731
+        for rerun in range(2 if reuse else 1):
+            seed = rng.randrange(10**6)
+            r = observe(algo, size, step_name, kind, keys, mk, wire, 400, seed, scale=UNIT)
+            if rerun:
+                r.desc += " [the budget object had been used by an earlier search]"
+            replay = {"algo": algo, "size": size, "step": step_name, "kind": kind, "keys": keys, "budget": wire, "seed": seed, "same_budget_object_used_by_an_earlier_search": bool(rerun)}
+            h.count(f"budget:{form}:{'reachable' if reachable else 'unreachable'}" + (":same-budget-object-again" if rerun else ""))
+            if not judge_common(h, r, wire, replay):
+                continue
+            if not r.stopped:
+                if form in ("target", "any(t,t2)"):
+                    h.notes.append(f"{r.desc}: target not hit within 400 checks (keys cycle); no verdict")
+                    h.count("budget:cap")
+                else:
+                    h.fail(r.site, "never-terminates", f"{r.desc}: still running after {len(r.counts)} checks, counter {r.counts[-3:]}", replay)
+                continue
+            if form == "target":
+                h.holds("TargetFitness.is_done", "target-stop-wrong", ["prop_target", v, r.comps],
+                        f"{r.desc}: best fitness (units of 1e-5) at the checks = {r.comps}; target {v} +- 10", replay)
+            elif form in ("any(e,t)", "any(t,e)", "any(any(e,t),e2)"):
+                h.holds("AnyOf.is_done", "anyof-stop-wrong", ["prop_anyof", min(n, n2) if form == "any(any(e,t),e2)" else n, v, r.counts, r.comps],
+                        f"{r.desc}: counter at the checks = {r.counts}, best fitness at the checks = {r.comps}", replay)
 
 
 def check_injected_population(h: Harness):
